@@ -7,7 +7,7 @@ op "build":  {"subst": [...], "rxns": [{"reac": [[k,n],…], "prod": …, "inact
               "builder": "get" | "create", "include_params": bool, "subs": [[key, rat], …], "cstr": bool,
               "param_exprs": [[key, rat], …], "py_nums": bool,
               "active": [[key, pexpr], …]?, "consts": [[key, rat], …]?   (get;  pexpr = {"c": rat} | {"s": key} | {"add": [a, b]} | {"mul": [a, b]}),
-              "subst_symbols": [key, …] | null?, "param_symbols": {"ordered": bool, "keys": [key, …]} | null?   (create), "point": [[symbol, rat], …] | null}
+              "subst_symbols": [key, …] | null? (OrderedDict), "subst_symbols_plain": [key, …] | null? (plain dict, insertion order), "param_symbols": {"ordered": bool, "keys": [key, …]} | null?   (create), "point": [[symbol, rat], …] | null}
 answer: the exception class, or one JSON object
    {"names", "param_names", "param_keys", "unique": [[key, null | "n/d"]], "exprs": [poly], "rates": [poly], "f": ["n/d"] | null,
     "r": ["n/d"] | null}
@@ -102,7 +102,10 @@ def hStep : Handler := fun op j =>
           let paramKeys ← match optField j "param_symbols" with
             | none => pure none
             | some v => do pure (some ((← getBool v "ordered"), (← getStrList v "keys")))
-          match buildRhs'U { cfg := cfg, substKeys := substKeys, paramKeys := paramKeys } sys with
+          let plain ← match optField j "subst_symbols_plain" with
+            | none => pure none
+            | some v => do pure (some (← (← asArr v).mapM asStr))
+          match buildRhs'P { cfg := cfg, substKeys := substKeys, paramKeys := paramKeys } plain sys with
           | .error e => pure (showErrC e)
           | .ok o =>
             pure (Json.mkObj [("names", jStrs o.names), ("param_names", jStrs o.paramNames),
